@@ -207,6 +207,7 @@ def run(ctx):
     fsx.uninstall() if hasattr(fsx, 'uninstall') else None
     locale_probe(ctx)
     sibling_names_probe(ctx)
+    failing_write_probe(ctx)
 
 
 def roundtrip_case(ctx, case, label, kind, cls, v, d, rng, ws, ask, dtasks, fsx, tdata, pathlib, other=None):
@@ -222,6 +223,13 @@ def roundtrip_case(ctx, case, label, kind, cls, v, d, rng, ws, ask, dtasks, fsx,
         left.mkdir(parents=True, exist_ok=True)
         (left / 'shard-of-a-dead-run.bin').write_bytes(b'partial')
         ctx.count('dir:leftover-work-directory')
+    if kind == 'listNumpy' and rng.random() < 0.5:
+        # (the same for a list of arrays: a stale high-index array left by an interrupted save is not part of the new list)
+        import numpy as _np
+        left = dtasks.role_paths(kind, d, t1)['tmp']
+        left.mkdir(parents=True, exist_ok=True)
+        _np.save(str(left / '97.npy'), _np.array([97]))
+        ctx.count('listNumpy:leftover-work-directory')
     try:
         v1 = plain(kind, t1.value)
     except Exception as e:  # noqa
@@ -475,6 +483,51 @@ def sibling_names_probe(ctx):
                 ctx.fail('a task loaded the stored value of a task with a similar name', case, {'round': rnd, 'got': got}); break
     except Exception as e:      # noqa
         ctx.notes['sibling-names'] = f'not constructible: {type(e).__name__}: {e}'[:200]
+
+
+def failing_write_probe(ctx):
+    """what the computing chain RETURNS is what later chains load: a forced recomputation whose result cannot be written (the device is full:
+    publishing raises OSError) does not hand out the new value while the store keeps the old one — the request fails instead"""
+    import taskchain.data as tdata
+    from taskchain import Task, Config
+    root = ctx.tmpdir() / 'failing-write'
+    counter = [0]
+
+    class Count(Task):
+        class Meta:
+            name = 'count'
+
+        def run(self) -> dict:
+            counter[0] += 1
+            return {'n': counter[0], 'text': 'x' * counter[0]}
+    for k in range(ctx.n(2, 8)):
+        data = root / f'd{k}'
+        first = Config(data, name='c', data={'tasks': [Count]}).chain().tasks['count'].value
+        t = Config(data, name='c', data={'tasks': [Count]}).chain().tasks['count']
+        t.force()
+        orig_move, orig_open = tdata.shutil.move, None
+
+        def move(src, dst, *a, **kw):
+            if str(data) in str(dst):
+                raise OSError(28, 'No space left on device')
+            return orig_move(src, dst, *a, **kw)
+        tdata.shutil.move = move
+        case = {'probe': 'forced recomputation whose result cannot be published', 'round': k}
+        ctx.case(case); ctx.count('failing-write-probe')
+        try:
+            got = t.value
+            outcome = 'returned'
+        except OSError:
+            got, outcome = None, 'raised'
+        finally:
+            tdata.shutil.move = orig_move
+        later = Config(data, name='c', data={'tasks': [Count]}).chain().tasks['count']
+        try:
+            lv = later.value
+        except Exception as e:      # noqa
+            lv = f'{type(e).__name__}'
+        if outcome == 'returned' and lv != got:
+            ctx.fail('a later chain loads a value different from what the computing chain returned', case, {'returned': got, 'later_chain': lv, 'first': first})
 
 
 def search(ctx, divergences):
